@@ -97,9 +97,10 @@ theorem compact_bound {T : Tun} (hT : TunOK T) {F : SecFns ρ} (hF : SecOK T F) 
 def AllSec (F : SecFns ρ) (k : Nat) (cs : List (Compactor ρ)) : Prop := ∀ c ∈ cs, SecInv F k c
 def AllBelow (T : Tun) (cs : List (Compactor ρ)) : Prop := ∀ c ∈ cs, c.items.length < c.nomCap T
 
-theorem mk'_sec {T : Tun} {F : SecFns ρ} (hF : SecOK T F) (k0 : Nat) (hra : Bool) (lg : Nat) :
-    SecInv F (effectiveK T k0) (Compactor.mk' T F hra lg (effectiveK T k0)) :=
-  ⟨0, rfl, (hF.init k0).symm⟩
+theorem mk'_sec {T : Tun} {F : SecFns ρ} (hF : SecOK T F) (k0 : Nat) (hra : Bool) (lg : Nat) (d : Bool) :
+    SecInv F (effectiveK T k0) (Compactor.mkC T F hra lg (effectiveK T k0) d) := by
+  obtain ⟨_, _, _, _, _, a6, _, _, a9, _⟩ := mkC_fields T F hra lg (effectiveK T k0) d
+  exact ⟨0, a9, by rw [a6, a9]; exact (hF.init k0).symm⟩
 
 theorem sort_sec {F : SecFns ρ} {k : Nat} {c : Compactor ρ} (h : SecInv F k c) : SecInv F k c.sort :=
   sec_of_fields h (sort_fields c).2.2.2.2.2.2.2.2 (sort_fields c).2.2.2.1
@@ -142,25 +143,25 @@ theorem compressLoop_bound {T : Tun} (hT : TunOK T) (hlazy : T.lazy = false) {F 
           · exact sort_sec (hsec c (by simp))
           · exact hsec c (by simp)
         have hfull1 : (sortIf0 h c).nomCap T ≤ (sortIf0 h c).items.length := by rw [hcap1, hl1]; exact hfull
-        have hnx : CInv T hra (h + 1) (nextOf T F hra (effectiveK T k0) h rest) ∧ CsInv T hra (h + 1 + 1) rest.tail ∧
-            SecInv F (effectiveK T k0) (nextOf T F hra (effectiveK T k0) h rest) ∧ AllSec F (effectiveK T k0) rest.tail ∧
-            sumItems rest = (nextOf T F hra (effectiveK T k0) h rest).items.length + sumItems rest.tail ∧
+        have hnx : CInv T hra (h + 1) (nextOf T F hra (effectiveK T k0) h rest acc.peek) ∧ CsInv T hra (h + 1 + 1) rest.tail ∧
+            SecInv F (effectiveK T k0) (nextOf T F hra (effectiveK T k0) h rest acc.peek) ∧ AllSec F (effectiveK T k0) rest.tail ∧
+            sumItems rest = (nextOf T F hra (effectiveK T k0) h rest acc.peek).items.length + sumItems rest.tail ∧
             rest.tail.length + 1 ≤ rest.length + 1 ∧ (rest = [] → rest.tail.length = 0) ∧ (rest ≠ [] → rest.tail.length + 1 = rest.length) := by
           cases rest with
-          | nil => exact ⟨mk'_CInv hT F hra (h + 1) _ (effectiveK_ge hT k0), trivial, mk'_sec hF k0 hra (h + 1), fun c hc => by simp at hc, rfl, by simp, fun _ => rfl, fun x => absurd rfl x⟩
+          | nil => exact ⟨mkC_CInv hT F hra (h + 1) _ (effectiveK_ge hT k0) acc.peek, trivial, mk'_sec hF k0 hra (h + 1) acc.peek, fun c hc => by simp at hc, by simp [nextOf, (mkC_fields T F hra (h + 1) (effectiveK T k0) acc.peek).1], by simp, fun _ => rfl, fun x => absurd rfl x⟩
           | cons x t => exact ⟨hrest.1, hrest.2, hsec x (by simp), fun c hc => hsec c (by simp only [List.tail_cons] at hc; simp [hc]), by simp [nextOf], by simp, fun x => by simp at x, fun _ => by simp⟩
         obtain ⟨n1, n2, n3, n4, n5, n6, n7, n8⟩ := hnx
-        have sp := compact_spec hT F acc.peek hc1 hs1 n1 hfull1
-        have cb := compact_bound hT hF k0 acc.peek hc1 hsec1 n3 hfull1
-        generalize (sortIf0 h c).compact T F (nextOf T F hra (effectiveK T k0) h rest) acc.peek = res at sp cb
+        have sp := compact_spec hT F (acc.growDraw T rest.isEmpty (h + 1)).peek hc1 hs1 n1 hfull1
+        have cb := compact_bound hT hF k0 (acc.growDraw T rest.isEmpty (h + 1)).peek hc1 hsec1 n3 hfull1
+        generalize (sortIf0 h c).compact T F (nextOf T F hra (effectiveK T k0) h rest acc.peek) (acc.growDraw T rest.isEmpty (h + 1)).peek = res at sp cb
         have hf' : sumItems (res.nxt :: rest.tail) + (res.nxt :: rest.tail).length ≤ fuel := by
           have a1 := sp.lenCur; have a2 := sp.lenNxt; have a3 := sp.num1
           simp only [sumItems_cons, List.length_cons]
           by_cases hr : rest = []
           · have := n7 hr; subst hr; simp at n5 hf ⊢; omega
           · have := n8 hr; omega
-        have IH := ih (h + 1) (res.nxt :: rest.tail) (ctrAfter (ctrGrow T ctr rest.isEmpty (nextOf T F hra (effectiveK T k0) h rest)) res)
-          (acc.afterCompact (sortIf0 h c).lgWeight res.fresh res.oddConst res.rangeOk) ⟨sp.nx, n2⟩
+        have IH := ih (h + 1) (res.nxt :: rest.tail) (ctrAfter (ctrGrow T ctr rest.isEmpty (nextOf T F hra (effectiveK T k0) h rest acc.peek)) res)
+          ((acc.growDraw T rest.isEmpty (h + 1)).afterCompact (sortIf0 h c).lgWeight res.fresh res.oddConst res.rangeOk) ⟨sp.nx, n2⟩
           (fun c' hc' => by rcases List.mem_cons.1 hc' with rfl | hc'; exact cb.2.2; exact n4 c' hc') hf'
         refine ⟨?_, ?_⟩
         · intro c' hc'
@@ -214,13 +215,15 @@ theorem compress_BInv {T : Tun} (hT : TunOK T) (hlazy : T.lazy = false) {F : Sec
   rw [hI.ret, hI.cap]
   exact sum_lt_of_AllBelow T _ hI.nonnil cb.1
 
-theorem new_BInv {T : Tun} (hT : TunOK T) {F : SecFns ρ} (hF : SecOK T F) (k : Nat) (hra : Bool) : BInv T F (Sketch.new T F k hra) := by
-  refine ⟨⟨k, rfl⟩, ?_, ?_⟩
+theorem new_BInv {T : Tun} (hT : TunOK T) {F : SecFns ρ} (hF : SecOK T F) (k : Nat) (hra d : Bool) : BInv T F (Sketch.new T F k hra d) := by
+  obtain ⟨e1, _, e3, e4, _, _, _, e8⟩ := new_compactors T F k hra d
+  refine ⟨⟨k, e4⟩, ?_, ?_⟩
   · intro c hc
-    simp only [Sketch.new, Sketch.grow, List.nil_append, List.mem_singleton] at hc
-    subst hc; exact mk'_sec hF k hra _
-  · show 0 < sumCap T [Compactor.mk' T F hra 0 (effectiveK T k)]
-    simp only [sumCap_cons, sumCap_nil, Nat.add_zero, Compactor.nomCap, Compactor.mk']
+    rw [e1] at hc
+    simp only [List.mem_singleton] at hc
+    subst hc; rw [e4]; exact mk'_sec hF k hra _ d
+  · rw [e3, e8]
+    simp only [sumCap_cons, sumCap_nil, Nat.add_zero, mkC_nomCap]
     have := effectiveK_ge hT k
     exact Nat.mul_pos (Nat.mul_pos (by have := hT.mult2; omega) (by have := hT.sec1; omega)) (by omega)
 
@@ -251,25 +254,25 @@ theorem update_BInv {T : Tun} (hT : TunOK T) (hlazy : T.lazy = false) {F : SecFn
     simp only [Sketch.append1] at hne ⊢
     omega
 
-theorem grow_sec {T : Tun} {F : SecFns ρ} (hF : SecOK T F) (s : Sketch ρ) (k0 : Nat) (hk : s.k = effectiveK T k0) (h : AllSec F s.k s.compactors) :
-    AllSec F (s.grow T F).k (s.grow T F).compactors := by
+theorem grow_sec {T : Tun} {F : SecFns ρ} (hF : SecOK T F) (s : Sketch ρ) (d : Bool) (k0 : Nat) (hk : s.k = effectiveK T k0) (h : AllSec F s.k s.compactors) :
+    AllSec F (s.grow T F d).k (s.grow T F d).compactors := by
   intro c hc
   simp only [Sketch.grow, List.mem_append, List.mem_singleton] at hc
   rcases hc with hc | rfl
   · exact h c hc
-  · show SecInv F s.k (Compactor.mk' T F s.hra s.compactors.length s.k)
-    rw [hk]; exact mk'_sec hF k0 _ _
+  · show SecInv F s.k (Compactor.mkC T F s.hra s.compactors.length s.k d)
+    rw [hk]; exact mk'_sec hF k0 _ _ d
 
-theorem growTo_sec {T : Tun} {F : SecFns ρ} (hF : SecOK T F) (target k0 : Nat) : ∀ (fuel : Nat) (s : Sketch ρ), s.k = effectiveK T k0 →
-    AllSec F s.k s.compactors → AllSec F (growTo T F fuel target s).k (growTo T F fuel target s).compactors ∧ (growTo T F fuel target s).k = s.k := by
+theorem growTo_sec {T : Tun} {F : SecFns ρ} (hF : SecOK T F) (target k0 : Nat) : ∀ (fuel : Nat) (s : Sketch ρ) (acc : Acc), s.k = effectiveK T k0 →
+    AllSec F s.k s.compactors → AllSec F (growTo T F fuel target s acc).1.k (growTo T F fuel target s acc).1.compactors ∧ (growTo T F fuel target s acc).1.k = s.k := by
   intro fuel
   induction fuel with
-  | zero => intro s _ h; exact ⟨h, rfl⟩
+  | zero => intro s acc _ h; exact ⟨h, rfl⟩
   | succ n ih =>
-    intro s hk h
+    intro s acc hk h
     simp only [growTo]
     split
-    · have := ih (s.grow T F) hk (grow_sec hF s k0 hk h)
+    · have := ih (s.grow T F acc.peek) (acc.drawIf T.initCoinRandom s.compactors.length) hk (grow_sec hF s acc.peek k0 hk h)
       exact ⟨this.1, this.2⟩
     · exact ⟨h, rfl⟩
 
@@ -307,22 +310,22 @@ theorem merge_BInv {T : Tun} (hT : TunOK T) (hlazy : T.lazy = false) {F : SecFns
     subst this; exact hb
   rename_i hn0
   obtain ⟨k0, hk0⟩ := hb.keff
-  obtain ⟨hI2, _, _, hk2, hn2⟩ := mergePre_SInv hT F s o hs ho hhra' hn0
-  have hsecP : AllSec F (s.mergePre T F o).k (s.mergePre T F o).compactors := by
-    have g := growTo_sec hF o.compactors.length k0 o.compactors.length s hk0 hb.sec
+  obtain ⟨hI2, _, _, hk2, hn2, _⟩ := mergePre_SInv hT F s o acc hs ho hhra' hn0
+  have hsecP : AllSec F (s.mergePre T F o acc).1.k (s.mergePre T F o acc).1.compactors := by
+    have g := growTo_sec hF o.compactors.length k0 o.compactors.length s acc hk0 hb.sec
     rw [hk2]
-    show AllSec F s.k (mergeLevels T F (growTo T F o.compactors.length o.compactors.length s).compactors o.compactors)
+    show AllSec F s.k (mergeLevels T F (growTo T F o.compactors.length o.compactors.length s acc).1.compactors o.compactors)
     rw [hk0]
     apply mergeLevels_sec hF k0
     have := g.1; rw [g.2, hk0] at this; exact this
   split at hr
-  · have : r = (s.mergePre T F o).compress T F acc := by simpa using hr.symm
+  · have : r = (s.mergePre T F o acc).1.compress T F (s.mergePre T F o acc).2 := by simpa using hr.symm
     subst this
-    exact compress_BInv hT hlazy hF _ acc hI2 (by rw [hn2]; omega) ⟨k0, by rw [hk2]; exact hk0⟩ hsecP
+    exact compress_BInv hT hlazy hF _ _ hI2 (by rw [hn2]; omega) ⟨k0, by rw [hk2]; exact hk0⟩ hsecP
   · rename_i hlt
-    have : r = (s.mergePre T F o, acc) := by simpa using hr.symm
+    have : r = s.mergePre T F o acc := by simpa using hr.symm
     subst this
-    exact ⟨⟨k0, by rw [hk2]; exact hk0⟩, hsecP, by show (s.mergePre T F o).numRetained < (s.mergePre T F o).maxNomSize; omega⟩
+    exact ⟨⟨k0, by rw [hk2]; exact hk0⟩, hsecP, by omega⟩
 
 theorem afterRank_BInv {T : Tun} {F : SecFns ρ} (s : Sketch ρ) (hb : BInv T F s) : BInv T F s.afterRank := by
   refine ⟨hb.keff, ?_, hb.lt⟩
@@ -386,7 +389,7 @@ theorem stepOp_BInv {T : Tun} (hT : TunOK T) (hlazy : T.lazy = false) {F : SecFn
       have : s0 = s := by simpa using hg
       subst this; exact hs.1
   cases op with
-  | new id k hra => exact AllSk_set hb id _ (new_BInv hT hF k hra)
+  | new id k hra => exact AllSk_set hb id _ (new_BInv hT hF k hra acc.peek)
   | upd id x =>
     simp only [stepOp]
     cases hg : st.get id with
